@@ -910,11 +910,14 @@ _OPERATOR_CMP = {'eq': ast.Eq, 'ne': ast.NotEq, 'lt': ast.Lt, 'le': ast.LtE, 'gt
 _PY_ERRORS = (ValueError, OverflowError, IndexError, KeyError, TypeError, ZeroDivisionError, AttributeError, UnicodeError)
 
 
+_NEVER_FOLD = {'operator.methodcaller', 'operator.itemgetter', 'operator.attrgetter'}
+
+
 def pure_ext(it, dotted, args, kw, n):
     """library functions without side effects: evaluated on constants by the checker's own python (constant folding); on symbolic
     arguments the operator.* family is mapped to the interpreter's own operators.  None = not handled here"""
     f = _PURE_EXT.get(dotted)
-    if f is not None:
+    if f is not None and dotted not in _NEVER_FOLD:
         try:
             a = [to_const(x) for x in args]
             k = {key: to_const(x) for key, x in kw.items()}
@@ -939,6 +942,9 @@ def pure_ext(it, dotted, args, kw, n):
         if nm == 'index' and len(args) == 1 and (isinstance(args[0], PInt) or irange(args[0]) is not None
                                                   or (isinstance(args[0], Sym) and args[0].meta.get('ty') == 'int')):
             return args[0]        # operator.index of an integer is that integer
+        if nm == 'methodcaller' and args and isinstance(args[0], K) and isinstance(args[0].v, str):
+            mname, margs, mkw = args[0].v, list(args[1:]), dict(kw)
+            return Native(lambda it_, a2, k2, node: it_.call(it_.getattr(a2[0], mname, node), margs, mkw, node), f'methodcaller({mname})')
         if nm in ('itemgetter', 'attrgetter') and args and all(isinstance(a, K) for a in args):
             keys = [a.v for a in args]
 
